@@ -18,7 +18,7 @@ def objname(parts):
     return out
 
 def E(ev, **kw):
-    base = {"ev": ev, "name": "", "q": "", "clause": "", "kind": "", "alias": "", "cols": [], "n": 0, "flag": False, "tabs": []}
+    base = {"ev": ev, "name": "", "q": "", "clause": "", "kind": "", "alias": "", "cols": [], "n": 0, "flag": False, "tabs": [], "expect": [], "has_expect": False, "ordered": True}
     base.update(kw)
     return base
 
@@ -288,6 +288,8 @@ def walk(rec):
             alias=rec.get("world", "closed"))]
     # base tables: those the program names (extern references of its RQ); columns known when a schema is given
     sch = rec.get("schema") or {}
+    if rec.get("expect") is not None:
+        ev[0]["expect"] = list(rec["expect"]); ev[0]["has_expect"] = True; ev[0]["ordered"] = bool(rec.get("ordered", True))
     names = []
     for t in rec.get("tables", []):
         names += [t] + ([t.rsplit(".", 1)[1]] if "." in t else [])     # `a.b` is read back as b qualified by a
